@@ -692,3 +692,55 @@ def gen_rt(seed: int, tier: str = "quick") -> Dict[str, Any]:
           "rt": {"f": f, "tr": tr, "dyadic": dyadic, "durations": durations}}
     repair_cycles(sc, rng)
     return {"scenario": sc, "schedule": sched}
+
+
+# ---------------------------------------------------------------------------------
+# a topology family the random generator rarely hits: an ancestor that iterates in a weak loop
+# reaches a group-mate over two paths - one inside the group, one that leaves it and re-enters -
+# whose delays have the same (or nearly the same) tiers
+def gen_twopath(seed: int, tier: str = "quick") -> Dict[str, Any]:
+    rng = random.Random(sub_seed(seed, "twopath"))
+    outside_group = rng.random() < 0.3
+    groups = [None, 0] + ([0] if outside_group else [])
+    deep = rng.random() < 0.25
+    if deep:
+        groups.append(1)          # Y (and sometimes Z) one level deeper
+    def mk(sid, typ, group, **beh):
+        b = {"bseed": rng.randrange(1 << 30), "p_self": 0.0, "self_d": 1, "p_out": 1.0, "loop_len": 1}
+        b.update(beh)
+        s = {"sid": sid, "type": typ, "group": group, "n_ent": 2, "meta_style": 0,
+             "transport": pick_weighted(rng, TRANSPORT_MIXES["mixed"]), "beh": b}
+        if typ == "event-based":
+            s["init_event"] = None
+        return s
+    X = mk("X", rng.choice(["event-based", "hybrid"]), 1, p_out=rng.choice([0.5, 0.7, 1.0]),
+           loop_len=rng.choice([2, 3, 3, 4]), p_self=rng.choice([0.0, 0.5, 1.0]))
+    if X["type"] == "event-based":
+        X["init_event"] = 0
+    Z = mk("Z", "event-based", 1, loop_len=None)
+    Y = mk("Y", rng.choice(["event-based", "hybrid"]), (len(groups) - 1) if deep else 1,
+           p_out=rng.choice([0.0, 0.5]))
+    R = mk("R", rng.choice(["event-based", "hybrid"]), 2 if outside_group else 0, loop_len=None)
+    sims = [X, Z, Y, R]
+    k1 = rng.choice([0, 1, 1, 2])
+    k2 = k1 if rng.random() < 0.7 else rng.choice([0, 1, 2])
+    conns = [
+        {"src": 0, "se": 0, "dst": 1, "de": 0, "pairs": [["e_out", "t_in"]], "shift": 0, "weak": False},
+        {"src": 1, "se": 0, "dst": 0, "de": 0, "pairs": [["e_out", "t_in"]], "shift": 0, "weak": True},
+        {"src": 0, "se": 1, "dst": 2, "de": 0, "pairs": [["e_out", "t_in"]], "shift": k1,
+         "weak": (k1 == 0 and rng.random() < 0.5)},
+        {"src": 0, "se": rng.choice([0, 1]), "dst": 3, "de": 0, "pairs": [["e_out", "t_in"]], "shift": 0, "weak": False},
+        {"src": 3, "se": 0, "dst": 2, "de": 1, "pairs": [["e_out", "t_in"]], "shift": k2, "weak": False},
+    ]
+    if rng.random() < 0.3:
+        # a consumer of Y outside, or a feedback from Y into the loop over a shifted connection
+        conns.append({"src": 2, "se": 0, "dst": 0, "de": 1, "pairs": [["e_out", "t_in"]], "shift": 1, "weak": False})
+    cfg = {"cache": rng.random() < 0.5, "lazy": rng.random() < 0.6, "debug": False, "mli": 8,
+           "start_seed": rng.choice([None, rng.randrange(1 << 30)]),
+           "connect_seed": rng.choice([None, rng.randrange(1 << 30)]),
+           "order_seed": rng.choice([None, rng.randrange(1 << 30)]),
+           "iteration_cost": rng.choice([0.0, 1e-5])}
+    sc = {"groups": groups, "sims": sims, "conns": conns, "until": rng.choice([2, 3, 4, 5]),
+          "config": cfg, "feats": {"twopath": True}}
+    repair_cycles(sc, rng)
+    return sc
